@@ -5,8 +5,13 @@ SPEC = dict(
     lean_targets=["SwayVerif.Props.C14"], audit="SwayVerif/Audit/C14.lean",
     theorems=[],  # filled below
     steps=[dict(bin="sv_c14", area="c14", n_quick=1000, n_thorough=12000, corpus="corpus/c14.txt",
-                dist_keys=("why", "fragment", "witness", "bf", "arms", "ran"), timeout=3000,
-                nontrivial=lambda case, impl, kv: kv.get("arms", "1") != "1")],
+                dist_keys=("why", "fragment", "witness", "bf", "arms", "ran", "orarm", "orlastdead"), timeout=3000,
+                nontrivial=lambda case, impl, kv: kv.get("arms", "1") != "1"),
+           # systematic block: every 2-/3-arm matrix with an or-pattern arm (2-3 alternatives, every order) over
+           # bool, a 2-variant enum, u8 {3,7,_}, and the or-pattern nested in a tuple component
+           dict(bin="sv_c14", label="sv_c14_sys", area="c14", n_quick=900, n_thorough=2700, args=["--systematic"],
+                dist_keys=("why", "orlastdead", "bf"), timeout=3000,
+                nontrivial=lambda case, impl, kv: True)],
     rule="random pattern matrices (1-6 arms, depth <= 3: wildcards, bindings, bool, u8 literals with and without "
          "suffix incl. 0/255, dense or-blocks covering 0..=255 with/without a hole, enum variants, tuples, structs "
          "with `..`/reordered fields, or-patterns) over generated enum/struct/tuple declarations with <= 70000 "
